@@ -221,6 +221,7 @@ func (rs *RequestServer) Serve() error {
 
 func (rs *RequestServer) packetWorker(ctx context.Context, pktChan chan orderedRequest) error {
 	for pkt := range pktChan {
+		vhook("work.begin", uint64(pkt.orderid), 1)
 		orderID := pkt.orderID()
 		if epkt, ok := pkt.requestPacket.(*sshFxpExtendedPacket); ok {
 			if epkt.SpecificPacket != nil {
